@@ -37,6 +37,7 @@ type Prog struct {
 	ByNm          map[string]*ssa.Function // short name -> function
 	CG            *callgraph.Graph
 	Typs          map[string]*types.Package          // short pkg name ("server", "rescache", ...) -> package
+	viewDepth     int
 	parent        map[*ssa.Function]*ssa.MakeClosure // closure fn -> its (unique) MakeClosure
 	stores        map[*types.Var][]*ssa.Store        // field -> stores through FieldAddr
 	loads         map[*types.Var][]ssa.Instruction   // field -> loads (UnOp on FieldAddr, Field)
